@@ -29,7 +29,7 @@ REQUIRED_BUCKETS = (['entry:' + e for e in ENTRIES] + ['class:in', 'class:near',
                                              'esc-u', 'esc-named', 'int-hex', 'int-oct', 'int-bin', 'int-us', 'float-exp',
                                              'imag', 'minus', 'one-tuple', 'trailing-comma', 'nl-in-bracket',
                                              'comment-in-bracket', 'backslash-cont', 'parenthesised', 'parenthesised-nested', 'empty-list',
-                                             'empty-tuple', 'empty-dict', 'adjacent-nosep', 'literal-newline-in-triple']])
+                                             'empty-tuple', 'empty-dict', 'adjacent-nosep', 'literal-newline-in-triple', 'raw-control-char', 'dict-duplicate-key']])
 ORACLE_COUNTERS = ['oracle_evals', 'accepted_equal', 'rejected_as_required']
 ASSUMPTIONS = ['ast.literal_eval of CPython is the reference for the value of a literal',
                'grey strings (set displays, Ellipsis, unary +, -(1), bare tuples, real+imag) may be rejected or accepted-equal']
@@ -55,7 +55,7 @@ def iter_cases(ctx, rng, n):
     if r < 0.58:
       v = gen.gen_value(rng, depth=rng.choice([0, 1, 2, 3, 4]))
       wild = rng.choice([0.0, 0.3, 0.6, 0.9])
-      text, used = gen.render_value(rng, v, wild=wild, multiline=True)
+      text, used = gen.render_value(rng, v, wild=wild, multiline=True, dup_keys=True)
       yield {'entry': entry, 'text': text, 'op': None, 'used': sorted(used), 'kinds': sorted(gen.kinds_in(v))}
     else:
       base_v = gen.gen_value(rng, depth=rng.choice([0, 0, 1]))
